@@ -22,14 +22,17 @@ import (
 	"github.com/renbou/grpcbridge/bridgedesc"
 	"github.com/renbou/grpcbridge/grpcadapter"
 	"github.com/renbou/grpcbridge/routing"
+	spb "google.golang.org/genproto/googleapis/rpc/status"
 	"google.golang.org/grpc"
 	"google.golang.org/grpc/codes"
 	"google.golang.org/grpc/credentials/insecure"
+	"google.golang.org/grpc/metadata"
 	"google.golang.org/grpc/status"
 	"google.golang.org/grpc/test/bufconn"
 	"google.golang.org/protobuf/encoding/protowire"
 	"google.golang.org/protobuf/proto"
 	"google.golang.org/protobuf/reflect/protoreflect"
+	"google.golang.org/protobuf/types/known/emptypb"
 	"google.golang.org/protobuf/types/known/wrapperspb"
 
 	"verif/harness/common"
@@ -59,21 +62,31 @@ func (rawCodec) Name() string { return "proto" }
 
 // tScript is what the scripted target does for one call.
 type tScript struct {
-	mode    string // readall | readn | pingpong | block
-	nread   int
-	resp    [][]byte
-	st      *status.Status
-	mu      sync.Mutex
-	got     [][]byte
-	half    bool
-	cancel  bool
-	gotN    chan struct{} // closed once nread messages were received
-	started chan struct{}
-	done    chan struct{}
+	mode                string // readall | readn | pingpong | block
+	nread               int
+	resp                [][]byte
+	st                  *status.Status
+	hdr                 bool // send the response header before anything else (commits the call at the client)
+	att                 bool // put the number of the call at the target into the status message
+	mu                  sync.Mutex
+	calls               int      // how many calls the target saw for this ONE bridged call
+	prev                string   // largest grpc-previous-rpc-attempts header seen
+	got                 [][]byte // every message the target received, over all calls, in arrival order
+	half                bool
+	cancel              bool
+	gotN                chan struct{} // closed once nread messages were received
+	started             chan struct{}
+	done                chan struct{}
+	onceN, onceS, onceD sync.Once
+}
+
+func newScript() *tScript {
+	return &tScript{gotN: make(chan struct{}), done: make(chan struct{}), started: make(chan struct{})}
 }
 
 type e2eEnv struct {
-	client  *grpc.ClientConn
+	client  *grpc.ClientConn       // real gRPC client -> GRPCProxy
+	tconn   grpcadapter.ClientConn // the REAL pooled connection to the target (AdaptedClientPool.New with default opts)
 	scripts sync.Map
 	seq     atomic.Int64
 }
@@ -110,8 +123,20 @@ func (e *e2eEnv) targetHandler(_ any, stream grpc.ServerStream) error {
 		return status.Error(codes.Unimplemented, "no script")
 	}
 	sc := v.(*tScript)
-	close(sc.started)
-	defer close(sc.done)
+	sc.mu.Lock()
+	sc.calls++
+	callNo := sc.calls
+	if md, ok := metadata.FromIncomingContext(stream.Context()); ok {
+		if v := md.Get("grpc-previous-rpc-attempts"); len(v) > 0 && v[0] > sc.prev {
+			sc.prev = v[0]
+		}
+	}
+	sc.mu.Unlock()
+	sc.onceS.Do(func() { close(sc.started) })
+	defer sc.onceD.Do(func() { close(sc.done) })
+	if sc.hdr {
+		_ = stream.SendHeader(metadata.Pairs("x-verif-h", "1"))
+	}
 	recv := func() error {
 		var b []byte
 		if err := stream.RecvMsg(&b); err != nil {
@@ -127,7 +152,7 @@ func (e *e2eEnv) targetHandler(_ any, stream grpc.ServerStream) error {
 		n := len(sc.got)
 		sc.mu.Unlock()
 		if n == sc.nread {
-			close(sc.gotN)
+			sc.onceN.Do(func() { close(sc.gotN) })
 		}
 		return nil
 	}
@@ -190,6 +215,11 @@ func (e *e2eEnv) targetHandler(_ any, stream grpc.ServerStream) error {
 	if sc.st == nil || sc.st.Code() == codes.OK {
 		return nil
 	}
+	if sc.att {
+		p := proto.Clone(sc.st.Proto()).(*spb.Status)
+		p.Message += fmt.Sprintf(" (call %d)", callNo)
+		return status.FromProto(p).Err()
+	}
 	return sc.st.Err()
 }
 
@@ -202,12 +232,19 @@ func getEnv() (*e2eEnv, error) {
 		dial := func(l *bufconn.Listener) grpc.DialOption {
 			return grpc.WithContextDialer(func(ctx context.Context, _ string) (net.Conn, error) { return l.DialContext(ctx) })
 		}
-		tconn, err := grpc.NewClient("passthrough:///target", dial(tl), grpc.WithTransportCredentials(insecure.NewCredentials()))
-		if err != nil {
+		// the outgoing side is exactly what a bridge uses: a connection made by the real pool with its default options
+		pool := grpcadapter.NewAdaptedClientPool(grpcadapter.AdaptedClientPoolOpts{})
+		if _, err := pool.New("target", "passthrough:///target", dial(tl), grpc.WithTransportCredentials(insecure.NewCredentials())); err != nil {
 			envErr = err
 			return
 		}
-		router := fixedRouter{conn: grpcadapter.AdaptClient(tconn), tgt: &bridgedesc.Target{Name: "target"}}
+		tconn, ok := pool.Get("target")
+		if !ok {
+			envErr = errors.New("pool.Get: target absent")
+			return
+		}
+		e.tconn = tconn
+		router := fixedRouter{conn: tconn, tgt: &bridgedesc.Target{Name: "target"}}
 		proxy := grpcbridge.NewGRPCProxy(router)
 		pl := bufconn.Listen(1 << 20)
 		psrv := grpc.NewServer(proxy.AsServerOption())
@@ -251,6 +288,15 @@ func statusBytes(st *status.Status) string {
 // GoroutineGrace is how long goroutines of a finished, torn-down call get to exit.
 var GoroutineGrace = 3 * time.Second
 
+// CurrentPromptLimit is PromptLimit — until three cases of this process have hung or missed it: the run has
+// failed by then, and the remaining cases only need to fail cheaply.
+func CurrentPromptLimit() time.Duration {
+	if hangsSeen.Load() >= 3 {
+		return PromptLimit / 4
+	}
+	return PromptLimit
+}
+
 // PromptLimit is the wall-clock bound for "the client learns of the termination promptly".
 var PromptLimit = 2 * time.Second
 
@@ -258,16 +304,64 @@ var PromptLimit = 2 * time.Second
 //
 //	e2e sc=<scenario> req=<hexlist> resp=<hexlist> tn=<target reads n> code=<n> msg=<hex> det=<hex> want.…
 func RunE2E(line string) string {
-	e, err := getEnv()
-	if err != nil {
-		return "HARNESS env " + common.HexS(err.Error())
-	}
+	kv := parseKV(line)
+	return Watchdog(CaseLimit, func(ctx context.Context) string { return gotFields("", runE2ECase(ctx, kv)) })
+}
+
+// CaseLimit bounds one end-to-end case: a case that is still running then is reported as a hang (got.hang=1)
+// for THAT case, its context is cancelled, and the harness moves on.
+var CaseLimit = 12 * time.Second
+
+func parseKV(line string) map[string]string {
 	kv := map[string]string{}
 	for _, f := range strings.Fields(line)[1:] {
 		if i := strings.IndexByte(f, '='); i > 0 {
 			kv[f[:i]] = f[i+1:]
 		}
 	}
+	return kv
+}
+
+func gotFields(prefix string, fields []string) string {
+	out := make([]string, len(fields))
+	for i, f := range fields {
+		out[i] = "got." + prefix + f
+	}
+	return strings.Join(out, " ")
+}
+
+// Watchdog runs f; if f has not returned within limit the case is a hang.
+func Watchdog(limit time.Duration, f func(ctx context.Context) string) string {
+	ctx, cancel := context.WithCancel(context.Background())
+	defer cancel()
+	ch := make(chan string, 1)
+	go func() {
+		defer func() {
+			if r := recover(); r != nil {
+				ch <- "PANIC " + common.HexS(fmt.Sprint(r))
+			}
+		}()
+		ch <- f(ctx)
+	}()
+	if hangsSeen.Load() >= 3 && limit > 4*time.Second {
+		limit = 4 * time.Second // the run is already failing: keep the remaining hangs cheap
+	}
+	select {
+	case s := <-ch:
+		return s + " got.hang=0"
+	case <-time.After(limit):
+		hangsSeen.Add(1)
+		cancel()
+		select {
+		case s := <-ch:
+			return s + " got.hang=1"
+		case <-time.After(3 * time.Second):
+			return "got.hang=1"
+		}
+	}
+}
+
+func scriptFromKV(kv map[string]string) (*tScript, [][]byte, [][]byte, string, bool) {
 	reqs, resps := unHexList(kv["req"]), unHexList(kv["resp"])
 	code, _ := strconv.Atoi(kv["code"])
 	st := status.New(codes.Code(code), string(common.MustUnHex(kv["msg"])))
@@ -275,9 +369,10 @@ func RunE2E(line string) string {
 		st, _ = st.WithDetails(wrapperspb.Bytes(det))
 	}
 	tn, _ := strconv.Atoi(kv["tn"])
-	sc := &tScript{resp: resps, st: st, nread: tn, gotN: make(chan struct{}), done: make(chan struct{}), started: make(chan struct{})}
+	sc := newScript()
+	sc.resp, sc.st, sc.nread, sc.hdr, sc.att = resps, st, tn, kv["hdr"] == "1", kv["att"] == "1"
 	if tn == 0 {
-		close(sc.gotN)
+		sc.onceN.Do(func() { close(sc.gotN) })
 	}
 	scen := kv["sc"]
 	switch scen {
@@ -292,14 +387,28 @@ func RunE2E(line string) string {
 	case "cancel", "deadline":
 		sc.mode = "block"
 	default:
-		return "HARNESS scenario"
+		return nil, nil, nil, scen, false
+	}
+	return sc, reqs, resps, scen, true
+}
+
+// runE2ECase: real gRPC client -> GRPCProxy -> real pooled AdaptedClientConn -> scripted target.
+func runE2ECase(parent context.Context, kv map[string]string) []string {
+	pl := CurrentPromptLimit()
+	e, err := getEnv()
+	if err != nil {
+		return []string{"HARNESS=env"}
+	}
+	sc, reqs, resps, scen, ok := scriptFromKV(kv)
+	if !ok {
+		return []string{"HARNESS=scenario"}
 	}
 	preexisting := BridgeGoroutineSnapshot()
 	method := fmt.Sprintf("/verif.E2E/Call%d", e.seq.Add(1))
 	e.scripts.Store(method, sc)
 	defer e.scripts.Delete(method)
 
-	ctx, cancel := context.WithCancel(context.Background())
+	ctx, cancel := context.WithCancel(parent)
 	defer cancel()
 	if scen == "deadline" {
 		var c2 context.CancelFunc
@@ -313,7 +422,7 @@ func RunE2E(line string) string {
 	if scen == "unary" {
 		var out []byte
 		in := reqs[0]
-		uctx, ucancel := context.WithTimeout(ctx, PromptLimit) // a unary call over local pipes that takes this long hangs
+		uctx, ucancel := context.WithTimeout(ctx, pl) // a unary call over local pipes that takes this long hangs
 		callErr = e.client.Invoke(uctx, method, &in, &out, grpc.ForceCodec(rawCodec{}))
 		if uctx.Err() != nil {
 			notPrompt.Store(true)
@@ -325,7 +434,7 @@ func RunE2E(line string) string {
 	} else {
 		stream, err := e.client.NewStream(ctx, &grpc.StreamDesc{ClientStreams: true, ServerStreams: true}, method, grpc.ForceCodec(rawCodec{}))
 		if err != nil {
-			return "HARNESS newstream " + common.HexS(err.Error())
+			return []string{"HARNESS=newstream"}
 		}
 		// watchdog: a call that does not end within the limit after its terminating event is not prompt
 		termAt := make(chan time.Time, 1)
@@ -336,7 +445,7 @@ func RunE2E(line string) string {
 			case t := <-termAt:
 				select {
 				case <-finished:
-				case <-time.After(time.Until(t.Add(PromptLimit))):
+				case <-time.After(time.Until(t.Add(pl))):
 					notPrompt.Store(true)
 					cancel()
 					<-finished
@@ -389,14 +498,17 @@ func RunE2E(line string) string {
 				// the client neither sends nor closes any more: the target ends the call on its own
 				select {
 				case <-sc.done:
-				case <-time.After(PromptLimit):
+				case <-time.After(pl):
 				}
 				termAt <- time.Now()
 			case "cancel":
 				select {
 				case <-sc.started:
-					<-sc.gotN
-				case <-time.After(PromptLimit):
+					select {
+					case <-sc.gotN:
+					case <-time.After(pl):
+					}
+				case <-time.After(pl):
 				}
 				cancel()
 				termAt <- time.Now()
@@ -411,7 +523,7 @@ func RunE2E(line string) string {
 		callErr = nil
 	}
 	elapsed := time.Since(start)
-	if scen == "deadline" && elapsed > 150*time.Millisecond+PromptLimit {
+	if scen == "deadline" && elapsed > 150*time.Millisecond+pl {
 		notPrompt.Store(true)
 	}
 	// the target handler must end too (its context is cancelled when the call is over)
@@ -420,7 +532,7 @@ func RunE2E(line string) string {
 	case <-sc.started:
 		select {
 		case <-sc.done:
-		case <-time.After(PromptLimit):
+		case <-time.After(pl):
 			tdone = false
 		}
 	default: // the call ended before it reached the target
@@ -440,17 +552,234 @@ func RunE2E(line string) string {
 		}
 		return "0"
 	}
-	return strings.Join([]string{
-		"got.treq=" + hexList(sc.got),
-		"got.cresp=" + hexList(cresp),
-		"got.code=" + strconv.Itoa(int(cst.Code())),
-		"got.status=" + statusBytes(cst),
-		"got.half=" + b2(sc.half),
-		"got.prompt=" + b2(!notPrompt.Load()),
-		"got.tdone=" + b2(tdone),
-		"got.gor=" + strconv.Itoa(gor),
-		"got.gwhere=" + gwhere,
-	}, " ")
+	return []string{
+		"tcalls=" + strconv.Itoa(sc.calls),
+		"treq=" + hexList(sc.got),
+		"cresp=" + hexList(cresp),
+		"code=" + strconv.Itoa(int(cst.Code())),
+		"status=" + statusBytes(cst),
+		"half=" + b2(sc.half),
+		"prompt=" + func() string {
+			if notPrompt.Load() {
+				hangsSeen.Add(1)
+			}
+			return b2(!notPrompt.Load())
+		}(),
+		"tdone=" + b2(tdone),
+		"gor=" + strconv.Itoa(gor),
+		"gwhere=" + gwhere,
+		"tprev=" + func() string {
+			if sc.prev == "" {
+				return "-"
+			}
+			return sc.prev
+		}(),
+	}
+}
+
+// scriptedIncoming is the incoming side of a `real` case: a ServerStream that hands out the scripted requests
+// (emptypb.Empty carrying the payload as unknown fields, like the proxy's DummyMethod) and then half-closes or
+// stays silent, and records what Forward hands back.
+type scriptedIncoming struct {
+	mu     sync.Mutex
+	reqs   [][]byte
+	i      int
+	silent bool
+	sent   [][]byte
+	hdr    metadata.MD
+}
+
+func (in *scriptedIncoming) Recv(ctx context.Context, msg proto.Message) error {
+	in.mu.Lock()
+	if in.i < len(in.reqs) {
+		msg.ProtoReflect().SetUnknown(append([]byte{}, in.reqs[in.i]...))
+		in.i++
+		in.mu.Unlock()
+		return nil
+	}
+	in.mu.Unlock()
+	if !in.silent {
+		return io.EOF
+	}
+	<-ctx.Done()
+	return status.FromContextError(ctx.Err()).Err()
+}
+
+func (in *scriptedIncoming) Send(ctx context.Context, msg proto.Message) error {
+	in.mu.Lock()
+	defer in.mu.Unlock()
+	in.sent = append(in.sent, append([]byte{}, msg.ProtoReflect().GetUnknown()...))
+	return nil
+}
+func (in *scriptedIncoming) SetHeader(md metadata.MD)  { in.mu.Lock(); in.hdr = md; in.mu.Unlock() }
+func (in *scriptedIncoming) SetTrailer(md metadata.MD) {}
+
+// RunReal executes one `real` case: the real ProxyForwarder.Forward with a scripted Incoming and, as Outgoing,
+// the REAL pooled connection (AdaptedClientPool.New with default options -> AdaptedClientConn ->
+// AdaptedClientStream over grpc-go) to the scripted target, which logs how many calls it saw for this one
+// bridged call and every message it received.
+//
+//	real sc=<echo|idle|early> req= resp= tn= code= msg= det= hdr= att= want.…
+func RunReal(line string) string {
+	kv := parseKV(line)
+	return Watchdog(CaseLimit, func(ctx context.Context) string { return gotFields("", runRealCase(ctx, kv)) })
+}
+
+// runDieCase: the target process goes away in the middle of a call (its server is stopped after it has read the
+// requests): a dedicated server and a dedicated pooled connection, the real Forward in between.
+func runDieCase(parent context.Context, kv map[string]string) []string {
+	pl := CurrentPromptLimit()
+	reqs := unHexList(kv["req"])
+	sc := newScript()
+	sc.mode, sc.nread = "block", len(reqs)
+	if len(reqs) == 0 {
+		sc.onceN.Do(func() { close(sc.gotN) })
+	}
+	de := &e2eEnv{}
+	de.scripts.Store("/verif.E2E/Die", sc)
+	tl := bufconn.Listen(1 << 20)
+	tsrv := grpc.NewServer(grpc.ForceServerCodec(rawCodec{}), grpc.UnknownServiceHandler(de.targetHandler))
+	go tsrv.Serve(tl)
+	defer tsrv.Stop()
+	pool := grpcadapter.NewAdaptedClientPool(grpcadapter.AdaptedClientPoolOpts{})
+	ctl, err := pool.New("dying", "passthrough:///dying",
+		grpc.WithContextDialer(func(ctx context.Context, _ string) (net.Conn, error) { return tl.DialContext(ctx) }),
+		grpc.WithTransportCredentials(insecure.NewCredentials()))
+	if err != nil {
+		return []string{"HARNESS=pool"}
+	}
+	defer ctl.Close()
+	conn, _ := pool.Get("dying")
+	preexisting := BridgeGoroutineSnapshot()
+	inc := &scriptedIncoming{reqs: reqs, silent: true}
+	ctx, cancel := context.WithCancel(parent)
+	defer cancel()
+	go func() {
+		select {
+		case <-sc.started:
+			select {
+			case <-sc.gotN:
+			case <-ctx.Done():
+				return
+			}
+			tsrv.Stop() // the target dies
+		case <-ctx.Done():
+		}
+	}()
+	pf := grpcadapter.NewProxyForwarder(grpcadapter.ProxyForwarderOpts{})
+	start := time.Now()
+	ferr := pf.Forward(ctx, grpcadapter.ForwardParams{
+		Target: &bridgedesc.Target{Name: "dying"}, Service: &bridgedesc.Service{Name: "verif.E2E"},
+		Method: bridgedesc.DummyMethod("verif.E2E", "Die"), Incoming: inc, Outgoing: conn,
+	})
+	prompt := time.Since(start) <= pl
+	cancel()
+	gor, gwhere := WaitBridgeGoroutinesGone(GoroutineGrace, preexisting)
+	sc.mu.Lock()
+	defer sc.mu.Unlock()
+	b2 := func(b bool) string {
+		if b {
+			return "1"
+		}
+		return "0"
+	}
+	return []string{
+		"tcalls=" + strconv.Itoa(sc.calls), "treq=" + hexList(sc.got), "cresp=" + hexList(inc.sent),
+		"code=" + strconv.Itoa(int(status.Code(ferr))), "prompt=" + b2(prompt), "gor=" + strconv.Itoa(gor), "gwhere=" + gwhere,
+	}
+}
+
+func runRealCase(parent context.Context, kv map[string]string) []string {
+	pl := CurrentPromptLimit()
+	if kv["sc"] == "die" {
+		return runDieCase(parent, kv)
+	}
+	e, err := getEnv()
+	if err != nil {
+		return []string{"HARNESS=env"}
+	}
+	sc, reqs, _, scen, ok := scriptFromKV(kv)
+	if !ok || (scen != "echo" && scen != "idle" && scen != "early") {
+		return []string{"HARNESS=scenario"}
+	}
+	preexisting := BridgeGoroutineSnapshot()
+	name := fmt.Sprintf("Real%d", e.seq.Add(1))
+	method := "/verif.E2E/" + name
+	e.scripts.Store(method, sc)
+	defer e.scripts.Delete(method)
+	inc := &scriptedIncoming{reqs: reqs, silent: scen != "echo"}
+	ctx, cancel := context.WithCancel(parent)
+	defer cancel()
+	pf := grpcadapter.NewProxyForwarder(grpcadapter.ProxyForwarderOpts{})
+	start := time.Now()
+	ferr := pf.Forward(ctx, grpcadapter.ForwardParams{
+		Target: &bridgedesc.Target{Name: "target"}, Service: &bridgedesc.Service{Name: "verif.E2E"},
+		Method:   bridgedesc.DummyMethod("verif.E2E", protoreflect.Name(name)),
+		Incoming: inc, Outgoing: e.tconn,
+	})
+	prompt := time.Since(start) <= pl
+	tdone := true
+	select {
+	case <-sc.started:
+		select {
+		case <-sc.done:
+		case <-time.After(pl):
+			tdone = false
+		}
+	default:
+	}
+	cancel()
+	gor, gwhere := WaitBridgeGoroutinesGone(GoroutineGrace, preexisting)
+	sc.mu.Lock()
+	defer sc.mu.Unlock()
+	inc.mu.Lock()
+	defer inc.mu.Unlock()
+	cst := status.Convert(ferr)
+	b2 := func(b bool) string {
+		if b {
+			return "1"
+		}
+		return "0"
+	}
+	_ = emptypb.Empty{}
+	return []string{
+		"tcalls=" + strconv.Itoa(sc.calls),
+		"treq=" + hexList(sc.got),
+		"cresp=" + hexList(inc.sent),
+		"code=" + strconv.Itoa(int(cst.Code())),
+		"status=" + statusBytes(cst),
+		"half=" + b2(sc.half),
+		"prompt=" + b2(prompt),
+		"tdone=" + b2(tdone),
+		"gor=" + strconv.Itoa(gor),
+		"gwhere=" + gwhere,
+	}
+}
+
+// RunMulti executes several calls one after another on ONE proxy in ONE process and judges each of them: call
+// `a` ends while the client has not half-closed (target ends early / client cancels / deadline), then nb plain
+// echo calls b1..bn follow. Each call has its own watchdog.
+//
+//	multi a=<idle|early|cancel|deadline> acode= areq= aresp= nb= breq= bresp= want.a.… want.b1.… …
+func RunMulti(line string) string {
+	kv := parseKV(line)
+	sub := func(prefix string, m map[string]string) string {
+		return Watchdog(CaseLimit/2, func(ctx context.Context) string { return gotFields(prefix, runE2ECase(ctx, m)) })
+	}
+	fix := func(s, prefix string) string { return strings.ReplaceAll(s, " got.hang=", " got."+prefix+"hang=") }
+	a := map[string]string{"sc": kv["a"], "req": kv["areq"], "resp": kv["aresp"], "code": kv["acode"], "msg": kv["amsg"], "det": "x", "att": "1"}
+	a["tn"] = strconv.Itoa(len(unHexList(kv["areq"])))
+	if kv["a"] == "early" {
+		a["tn"] = "0"
+	}
+	out := []string{fix(sub("a.", a), "a.")}
+	nb, _ := strconv.Atoi(kv["nb"])
+	for i := 1; i <= nb; i++ {
+		b := map[string]string{"sc": "echo", "req": kv["breq"], "resp": kv["bresp"], "tn": "0", "code": "0", "msg": "x", "det": "x"}
+		p := fmt.Sprintf("b%d.", i)
+		out = append(out, fix(sub(p, b), p))
+	}
+	return strings.Join(out, " ")
 }
 
 // randWire returns a random valid protobuf wire-format message (fields unknown to emptypb.Empty).
@@ -482,8 +811,13 @@ func randWire(r *rand.Rand, big bool) []byte {
 
 // GenE2E emits n end-to-end cases; faults=true emphasises the termination scenarios of C02.
 func GenE2E(r *rand.Rand, n int, faults bool, emit func(string)) {
-	mk := func(scen string, reqs, resps [][]byte, tn int, code int, msg string, det []byte) {
-		st := status.New(codes.Code(code), msg)
+	mkx := func(op, scen string, reqs, resps [][]byte, tn int, code int, msg string, det []byte, hdr bool) {
+		// the target puts the number of the call it is serving into the status message: "(call 1)" must arrive
+		wmsg := msg
+		if code != 0 {
+			wmsg += " (call 1)"
+		}
+		st := status.New(codes.Code(code), wmsg)
 		if len(det) > 0 && code != 0 {
 			st, _ = st.WithDetails(wrapperspb.Bytes(det))
 		}
@@ -502,9 +836,16 @@ func GenE2E(r *rand.Rand, n int, faults bool, emit func(string)) {
 				cresp = nil
 			}
 		}
-		emit(fmt.Sprintf("e2e sc=%s req=%s resp=%s tn=%d code=%d msg=%s det=%s want.treq=%s want.cresp=%s want.code=%s want.status=%s want.half=%s want.prompt=1 want.tdone=1 want.gor=0",
-			scen, hexList(reqs), hexList(resps), tn, code, common.HexS(msg), common.Hex(det),
+		h := "0"
+		if hdr {
+			h = "1"
+		}
+		emit(fmt.Sprintf("%s sc=%s req=%s resp=%s tn=%d code=%d msg=%s det=%s hdr=%s att=1 want.tcalls=1 want.treq=%s want.cresp=%s want.code=%s want.status=%s want.half=%s want.prompt=1 want.tdone=1 want.gor=0 want.hang=0",
+			op, scen, hexList(reqs), hexList(resps), tn, code, common.HexS(msg), common.Hex(det), h,
 			hexList(treq), hexList(cresp), wcode, wstatus, half))
+	}
+	mk := func(scen string, reqs, resps [][]byte, tn int, code int, msg string, det []byte) {
+		mkx("e2e", scen, reqs, resps, tn, code, msg, det, false)
 	}
 	msgs := func(k int, big bool) [][]byte {
 		var out [][]byte
@@ -530,8 +871,47 @@ func GenE2E(r *rand.Rand, n int, faults bool, emit func(string)) {
 		mk("idle", [][]byte{{0x08, byte(code)}}, [][]byte{{0x10, byte(code)}}, 1, code, msg, det)
 		if code%4 == 1 {
 			mk("unary", [][]byte{{0x08, byte(code)}}, [][]byte{{0x10, byte(code)}}, 0, code, msg, det)
-			mk("early", nil, nil, 0, code, msg, det)
 		}
+		// the target ends the call WITHOUT any response ("trailers-only": nothing commits the call at the gRPC
+		// client, so a retrying / hedging outgoing connection would silently re-issue it): at once, after having
+		// read the requests, and after an explicit header. Through the proxy (both real adapters in the loop) and
+		// with the real Forward directly on the real pooled connection.
+		q := [][]byte{{0x08, byte(code)}, {0x08, 0x7f}}
+		mk("early", q, nil, 0, code, msg, det)
+		mk("idle", q, nil, 2, code, msg, det)
+		mkx("e2e", "idle", q, nil, 2, code, msg, det, true)
+		mkx("real", "early", q, nil, 0, code, msg, det, false)
+		mkx("real", "idle", q, nil, 2, code, msg, det, false)
+		mkx("real", "echo", q, [][]byte{{0x10, byte(code)}}, 0, code, msg, det, false)
+		if code%3 == 2 {
+			mkx("real", "idle", q, [][]byte{{0x10, byte(code)}, {}}, 1, code, msg, det, true)
+		}
+	}
+	// the target dies in the middle of the call
+	emit("real sc=die req=x0801,x0802 want.tcalls=1 want.treq=x0801,x0802 want.cresp=- want.code=14 want.prompt=1 want.gor=0 want.hang=0")
+	emit("real sc=die req=- want.tcalls=1 want.treq=- want.cresp=- want.code=14 want.prompt=1 want.gor=0 want.hang=0")
+	// several calls on ONE proxy: a call that ends while the client has not half-closed, then plain echo calls;
+	// every call is judged on its own (state must be per call)
+	for _, a := range []string{"idle", "early", "cancel", "deadline", "idle"} {
+		acode, wcode, wst := 10, "10", ""
+		st := status.New(codes.Aborted, "call a (call 1)")
+		wst = statusBytes(st)
+		areq, aresp := "x0801", "x1001"
+		wreq, wresp := areq, aresp
+		switch a {
+		case "early":
+			wreq, aresp, wresp = "-", "-", "-"
+		case "cancel":
+			aresp, wresp, wcode, wst = "-", "-", "1", "*"
+		case "deadline":
+			aresp, wresp, wcode, wst = "-", "-", "4", "*"
+		}
+		l := fmt.Sprintf("multi a=%s acode=%d amsg=%s areq=%s aresp=%s nb=3 breq=x0802,x,x0803 bresp=x1002,x want.a.tcalls=1 want.a.treq=%s want.a.cresp=%s want.a.code=%s want.a.status=%s want.a.prompt=1 want.a.gor=0 want.a.hang=0",
+			a, acode, common.HexS("call a"), areq, aresp, wreq, wresp, wcode, wst)
+		for i := 1; i <= 3; i++ {
+			l += fmt.Sprintf(" want.b%d.tcalls=1 want.b%d.treq=x0802,x,x0803 want.b%d.cresp=x1002,x want.b%d.code=0 want.b%d.status=x want.b%d.half=1 want.b%d.prompt=1 want.b%d.gor=0 want.b%d.hang=0", i, i, i, i, i, i, i, i, i)
+		}
+		emit(l)
 	}
 	scens := []string{"echo", "echo", "pingpong", "unary", "idle", "early", "cancel"}
 	if faults {
